@@ -243,10 +243,6 @@ func (c *Ctx) verify() {
 	}
 	c.entryEnvVars = env.vars
 	env.old = map[string]string{}
-	// lets
-	for _, l := range c.fc.Lets {
-		env.vars[l.Name] = env.eval(l.Expr)
-	}
 	// requires
 	for _, r := range c.fc.Requires {
 		t := env.evalBool(r.Expr)
@@ -1539,6 +1535,18 @@ func (c *Ctx) implementsTerm(tag string, iface types.Type) string {
 			}
 			return "false"
 		}
+	}
+	// facts for every concrete type registered so far
+	it := iface.Underlying().(*types.Interface)
+	for id, t := range c.eng.typeListSnapshot() {
+		if t == nil || types.IsInterface(t) {
+			continue
+		}
+		val := "false"
+		if types.Implements(t, it) {
+			val = "true"
+		}
+		c.declGlobal(fmt.Sprintf("implfact:%s:%d", name, id), fmt.Sprintf("(assert (= (%s %d) %s))", name, id, val))
 	}
 	return fmt.Sprintf("(%s %s)", name, tag)
 }
